@@ -28,7 +28,8 @@ def parse_strace(path, workdir):
                 if "O_TRUNC" in args or name == "creat":
                     ops.append(("creat", pm.group(1)))
                 elif "O_WRONLY" in args or "O_RDWR" in args:
-                    ops.append(("other", line.strip()))
+                    # opened for writing without truncation: existing content stays, writes start at offset 0
+                    ops.append(("open", pm.group(1), "O_CREAT" in args))
         elif name == "write":
             fd = int(args.split(",")[0])
             if fd in fds and ret > 0:
@@ -56,11 +57,15 @@ def crash_states(ops, old_files, new_bytes):
         for k, op in enumerate(prefix):
             if op[0] == "creat":
                 fs[op[1]] = b""; pos[op[1]] = 0
+            elif op[0] == "open":
+                if op[1] in fs or op[2]:
+                    fs.setdefault(op[1], b""); pos[op[1]] = 0
             elif op[0] == "write":
                 n = op[2] if not (cut is not None and k == len(prefix) - 1) else cut
                 p = pos.get(op[1], 0)
                 if op[1] in fs:
-                    fs[op[1]] = fs[op[1]] + new_bytes[p:p + n]
+                    cur = fs[op[1]]
+                    fs[op[1]] = cur[:p] + new_bytes[p:p + n] + cur[p + n:]
                 pos[op[1]] = p + op[2]
             elif op[0] == "rename":
                 if op[1] in fs:
@@ -118,6 +123,14 @@ def crash_check(harness, rng, pairs):
                     and ops[-1][1] == tmp[0] and ops[-1][2] == target and all(o[1] == tmp[0] for o in ops[:-1]))
         if not ok_shape:
             protocol_diffs.append({"observed_syscalls": [list(o) for o in ops], "expected": "creat tmp; write tmp …; fsync tmp; rename tmp target"})
+        # a third, short snapshot for the save AFTER a crash: whatever the crash left behind (a temporary file of any length),
+        # the next store must be read back unchanged
+        third = "0" if rng.chance(1, 2) else "1 1 122 0 3 %d" % rng.below(65536)
+        d3 = os.path.join(d, "third"); os.makedirs(d3, exist_ok=True)
+        tok3 = os.path.join(d, "third.tok"); open(tok3, "w").write(third)
+        vlib.run([harness, "store", tok3, os.path.join(d3, "retain.bin")], check=True, timeout=60)
+        third_dump = load_dump(harness, os.path.join(d3, "retain.bin"))
+        recovered = 0
         for desc, fs in crash_states(ops, old_files, new_bytes):
             cd = os.path.join(d, "state")
             shutil.rmtree(cd, ignore_errors=True); os.makedirs(cd)
@@ -133,6 +146,17 @@ def crash_check(harness, rng, pairs):
                                  "files_after_crash": {os.path.basename(p): list(c) for p, c in fs.items()},
                                  "load_returned": got, "expected_one_of": [old_dump, new_dump]})
                 break
+            if any(os.path.basename(p) != "retain.bin" for p in fs) and recovered < 4:
+                recovered += 1
+                rc3, out3 = vlib.run([harness, "store", tok3, os.path.join(cd, "retain.bin")], timeout=60)
+                got3 = load_dump(harness, os.path.join(cd, "retain.bin")) if rc3 == 0 else "store failed: " + out3[-200:]
+                evaluated += 1
+                if got3 != third_dump:
+                    failures.append({"old_snapshot_tokens": toks[0] if have_old else None, "new_snapshot_tokens": toks[1], "third_snapshot_tokens": third,
+                                     "syscalls": [list(o) for o in ops], "crash_point": desc + "; then store(third snapshot) and load",
+                                     "files_after_crash": {os.path.basename(p): list(c) for p, c in fs.items()},
+                                     "load_returned": got3, "expected_one_of": [third_dump]})
+                    break
         shutil.rmtree(d, ignore_errors=True)
     return failures, protocol_diffs, evaluated, sample
 
@@ -199,7 +223,7 @@ def check(tier):
                                               "crash model: a crash preserves a prefix of the issued system calls (no kernel reordering; rename durability without directory fsync is assumed)"],
         "theorems": pr["theorems"], "axioms": pr["axioms"],
         "evaluations": len(results) + crash_eval, "distinct_nontrivial": len(set(r["line"].split(":")[1] for r in good if len(r["line"]) > 60)),
-        "rule": "snapshots of 0-4 named values over all 25 fixed-width kinds (boundary bit patterns), STRING/WSTRING (ASCII, Latin-1, CJK, emoji, empty, >23 bytes), arrays (0-2 dimensions incl. i64 extremes), structs, enums, Null, nesting <= 3: store -> file bytes compared with the model encoding, load compared with the model decoding; hostile files: truncations, byte flips, counts forced to FFFFFFFF, random bytes, 60-70 nested arrays, trailing garbage, tag swaps, under ulimit -v 4 GB; crash: strace of store(), every syscall prefix and cut write materialised on disk and loaded; non-trivial = case longer than 60 characters",
+        "rule": "snapshots of 0-4 named values over all 25 fixed-width kinds (boundary bit patterns), STRING/WSTRING (ASCII, Latin-1, CJK, emoji, empty, >23 bytes), arrays (0-2 dimensions incl. i64 extremes), structs, enums, Null, nesting <= 3: store -> file bytes compared with the model encoding, load compared with the model decoding; hostile files: truncations, byte flips, counts forced to FFFFFFFF, random bytes, 60-70 nested arrays, trailing garbage, tag swaps, under ulimit -v 4 GB; crash: strace of store(), every syscall prefix and cut write materialised on disk and loaded, and on states with a leftover temporary file a further (shorter) snapshot stored and read back; non-trivial = case longer than 60 characters",
         "samples": [r["line"][:300] for r in good[:2]] + [crash_sample],
         "case_kinds": kinds, "crash_states_loaded": crash_eval, "model_out_of_fuel": len(fuel),
         "model_impl_disagreements": len(diffs), "spec_failures": len(specfails),
